@@ -5,7 +5,8 @@ A state is ((ref_intervals_hier, ref_labels_hier), (est_intervals_hier, est_labe
 each level a tuple of contiguous (start, end) segments tiling [0, c * cell), and a tuple of label tuples of the same
 shape.  Every composition of the c cells is a possible level (nested or not, deeper levels may be coarser - the
 library only warns); labels are the restricted-growth labellings over <= 2 names per level.  cell = 0.5 s (phases
-1, 5: 1.0 s; phases 3, 7: 0.75 s = boundaries off the 0.5 / 0.25 s frame grids); label names rotate with the phase.
+1, 5: 0.25 s = finer than the 0.5 s frame, so some segments hold no frame; phases 3, 7: 0.75 s = boundaries off
+the frame grids); label names rotate with the phase.
 
 pair space (quick; all sides share the span, as tmeasure / lmeasure demand)
   S  every pair of hierarchies over 1 and 2 cells (1..2 levels);
@@ -33,7 +34,7 @@ from mc import core, lib
 from mc.spec import hierarchy as S
 from mc.tasks.base import Func, Task
 
-CELLS = [0.5, 1.0, 0.5, 0.75, 0.5, 1.0, 0.5, 0.75]
+CELLS = [0.5, 0.25, 0.5, 0.75, 0.5, 0.25, 0.5, 0.75]
 NAMES = [("a", "b"), ("x", "y"), ("verse", "chorus"), ("1", "2"), ("B", "A"), ("q", "p"),
          ("intro", "outro"), ("s0", "s1")]
 T_KEYS = ("T-Precision", "T-Recall", "T-Measure")
